@@ -153,7 +153,7 @@ def takeDigits : List Nat → List Nat × List Nat
 
 /-- `digits[.digits][(e|E)[+-]digits]` (at least one digit before the point) → exact value and
     whether the numeral is a plain integer -/
-def readNumber (s : List Nat) : Option (Q × Bool) :=
+def readNumberU (s : List Nat) : Option (Q × Bool) :=
   let (ip, r1) := takeDigits s
   if ip = [] then none else
   let (fp, r2, hasFrac) := match r1 with
@@ -176,6 +176,12 @@ def readNumber (s : List Nat) : Option (Q × Bool) :=
         if neg then some (⟨mant, 10 ^ (scale + e)⟩, false)
         else some (⟨mant * 10 ^ e, 10 ^ scale⟩, false)
     else none
+
+/-- a numeral may carry an explicit `+` (the number parsers accept it): it denotes the same value -/
+def readNumber (s : List Nat) : Option (Q × Bool) :=
+  match s with
+  | 43 :: r => (match r with | c :: _ => if isDig c then readNumberU r else none | [] => none)
+  | _ => readNumberU s
 
 def splitSp (s : List Nat) : List (List Nat) :=
   (s.foldr (fun c acc => if c = 32 then [] :: acc else match acc with
